@@ -13,7 +13,9 @@ META = dict(
          "receives the faulty bytes, the outer two send two valid keep-alive requests each; serviceAll is called repeatedly.  Required: "
          "serviceAll never raises, the healthy connections receive exactly their correct responses in both rounds, and the faulty connection "
          "ends up answered, still waiting, or closed and removed.  Client: a real Patron sends a request to a harness-played server that answers "
-         "with the faulty bytes; serviceAll must never raise.  Chunk-size family: a chunked message whose first chunk-size line is a signed or otherwise odd "
+         "with the faulty bytes; serviceAll must never raise.  Status-line family: {HTTP/1.1, HTTP/1.0} x status codes in and not in httping.STATUS_DESCRIPTIONS "
+         "(200 404 204 / 299 418 422 600 999) x reason phrase {present, absent, absent with trailing blank, only blanks, TAB, standard} as the "
+         "response to the Patron.  Chunk-size family: a chunked message whose first chunk-size line is a signed or otherwise odd "
          "hex number (-1 -5 -ff +5 -0 '-5;ext=1' 0x5 5_0 huge ...), to Valet, Porter and Patron.  Every execution runs under a watchdog (3 s, a hit "
          "is confirmed once with 15 s): a service call that never returns is the violation 'hangs'.  Content-Length family: a valid message whose Content-Length value is every single-byte mutation of '12' - "
          "delete, duplicate, replace by the C32 bytes and by EVERY byte 0x80-0xFF at each position, high bytes inserted at every position "
@@ -609,6 +611,40 @@ def work_chunksize(item):
     return part
 
 
+# --------------------------------------------------------------------------- status-line family
+
+STATUS_CODES = [200, 404, 204, 299, 418, 422, 600, 999]          # in and not in httping.STATUS_DESCRIPTIONS
+STATUS_REASONS = [("reason", b" Some Reason"), ("no-reason", b""), ("no-reason-trailing-space", b" "), ("blank-reason", b"    "),
+                  ("tab-reason", b"\t"), ("standard-reason", None)]
+
+
+def work_statusline(item):
+    FSM = setup()
+    from ioflo.aio.http import httping
+    part = core.Part()
+    for version in (b"HTTP/1.1", b"HTTP/1.0"):
+        for code in STATUS_CODES:
+            for rname, reason in STATUS_REASONS:
+                if reason is None:
+                    if code not in httping.STATUS_DESCRIPTIONS:
+                        continue
+                    reason = b" " + httping.STATUS_DESCRIPTIONS[code].encode("ascii")
+                known = "known" if code in httping.STATUS_DESCRIPTIONS else "unknown"
+                body = b"" if code == 204 else b"hello"
+                data = version + b" %d" % code + reason + b"\r\nContent-Type: text/plain\r\nContent-Length: %d\r\n\r\n" % len(body) + body
+                out, viol = run_guarded(client_exec, FSM, data, False)
+                fault = "status line %s %d (%s code) %s" % (version.decode(), code, known, rname)
+                part.evaluations += 1
+                part.nontrivial(repr(("status-line", data)))
+                part.outcome("client:status-line:%s-code:%s:%s" % (known, rname, out))
+                if viol is not None:
+                    group, what = viol
+                    part.violation(group, fault, "Patron receives %r: %s" % (data, what),
+                                   dict(side="client", family="status-line", bytes=data, what=what))
+    part.sample(dict(side="client", family="status-line", bytes=data, outcome=out))
+    return part
+
+
 # --------------------------------------------------------------------------- driver
 
 _FSM = []
@@ -662,6 +698,8 @@ def setup():
 def work(item):
     if item[0].endswith("-oversize"):
         return work_oversize((item[0].split("-")[0], item[1]))
+    if item[0].endswith("-statusline"):
+        return work_statusline(item)
     if item[0].endswith("-chunksize"):
         return work_chunksize((item[0].split("-")[0],))
     if item[0].endswith("-contentlength"):
@@ -719,6 +757,7 @@ def run():
     over = [("server-oversize", i, None) for i in range(len(REQ_SEEDS))] + [("client-oversize", i, None) for i in range(len(RSP_SEEDS))]
     items += [(t + "-contentlength", 0, None) for t in ("valet", "porter", "client")]
     items += [(t + "-chunksize", 0, None) for t in ("valet", "porter", "client")]
+    items += [("client-statusline", 0, None)]
     items += [(side + "-charset", variant, None) for side in ("client", "server") for variant in ("json", "dictable")]
     res = core.pmap(work, over + items)
     ck.merge(res[len(over):] + res[:len(over)])
